@@ -14,6 +14,7 @@ use hydro_lang::sim::{SimReceiver, SimSender};
 use hydro_std::quorum::{collect_quorum, collect_quorum_with_response};
 use hydro_std::request_response::join_responses;
 
+#[cfg(stageleft_runtime)]
 pub const META: PropMeta = PropMeta {
     id: "C39",
     quick_runs: 100_000,
@@ -33,8 +34,10 @@ pub const META: PropMeta = PropMeta {
     required_probes: &["quorum_reached", "quorum_not_reached_at_max", "error_passed_through", "quorum_state_carried_across_ticks", "join_matched", "join_unmatched_response_dropped", "barrier_phase_checked"],
 };
 
+#[cfg(stageleft_runtime)]
 type Tx<T, O> = SimSender<T, O, ExactlyOnce>;
 
+#[cfg(stageleft_runtime)]
 #[derive(Clone, Copy, Debug, PartialEq, Eq)]
 struct QCfg {
     with_resp: bool,
@@ -42,6 +45,7 @@ struct QCfg {
     min: usize,
     max: usize,
 }
+#[cfg(stageleft_runtime)]
 const QCFGS: [QCfg; 13] = [
     QCfg { with_resp: false, noorder: false, min: 1, max: 1 },
     QCfg { with_resp: false, noorder: false, min: 2, max: 2 },
@@ -57,38 +61,45 @@ const QCFGS: [QCfg; 13] = [
     QCfg { with_resp: true, noorder: true, min: 2, max: 3 },
     QCfg { with_resp: true, noorder: true, min: 2, max: 2 },
 ];
+#[cfg(stageleft_runtime)]
 const QNAMES: [&str; 13] = [
     "quorum_1_1", "quorum_2_2", "quorum_2_3", "quorum_3_3", "quorum_1_3",
     "quorum_resp_1_1", "quorum_resp_2_2", "quorum_resp_2_3", "quorum_resp_3_3", "quorum_resp_1_3",
     "quorum_noorder_2_3", "quorum_resp_noorder_2_3", "quorum_resp_noorder_2_2",
 ];
 
+#[cfg(stageleft_runtime)]
 /// (key, Ok(payload) | Err(payload)); payloads are unique per run
 type Resp = (u8, Result<u32, u32>);
 
+#[cfg(stageleft_runtime)]
 enum QPorts {
     PlainT(Tx<(u8, Result<(), u32>), TotalOrder>, SimReceiver<u8, NoOrder, ExactlyOnce>, SimReceiver<(u8, u32), TotalOrder, ExactlyOnce>),
     PlainN(Tx<(u8, Result<(), u32>), NoOrder>, SimReceiver<u8, NoOrder, ExactlyOnce>, SimReceiver<(u8, u32), NoOrder, ExactlyOnce>),
     RespT(Tx<Resp, TotalOrder>, SimReceiver<(u8, u32), TotalOrder, ExactlyOnce>, SimReceiver<(u8, u32), TotalOrder, ExactlyOnce>),
     RespN(Tx<Resp, NoOrder>, SimReceiver<(u8, u32), NoOrder, ExactlyOnce>, SimReceiver<(u8, u32), NoOrder, ExactlyOnce>),
 }
+#[cfg(stageleft_runtime)]
 struct QFlow {
     cfg: QCfg,
     compiled: CompiledSim,
     ports: QPorts,
 }
 
+#[cfg(stageleft_runtime)]
 fn plain<O: Ordering>(node: &Process<'_, ()>, c: QCfg) -> (Tx<(u8, Result<(), u32>), O>, SimReceiver<u8, NoOrder, ExactlyOnce>, SimReceiver<(u8, u32), O, ExactlyOnce>) {
     let (tx, input) = node.sim_input::<(u8, Result<(), u32>), O, ExactlyOnce>();
     let (ok, err) = collect_quorum(input, c.min, c.max);
     (tx, ok.sim_output(), err.sim_output())
 }
+#[cfg(stageleft_runtime)]
 fn with_resp<O: Ordering>(node: &Process<'_, ()>, c: QCfg) -> (Tx<Resp, O>, SimReceiver<(u8, u32), O, ExactlyOnce>, SimReceiver<(u8, u32), O, ExactlyOnce>) {
     let (tx, input) = node.sim_input::<Resp, O, ExactlyOnce>();
     let (ok, err) = collect_quorum_with_response(input, c.min, c.max);
     (tx, ok.sim_output(), err.sim_output())
 }
 
+#[cfg(stageleft_runtime)]
 fn build_q(c: QCfg) -> QFlow {
     let mut flow = FlowBuilder::new();
     let node = flow.process::<()>();
@@ -114,6 +125,7 @@ fn build_q(c: QCfg) -> QFlow {
     QFlow { cfg: c, compiled, ports }
 }
 
+#[cfg(stageleft_runtime)]
 #[derive(Default, Clone, Debug)]
 struct PhaseObs {
     /// reported (key, payload) pairs (payload 0 for the plain helper)
@@ -121,11 +133,13 @@ struct PhaseObs {
     err: Vec<(u8, u32)>,
 }
 
+#[cfg(stageleft_runtime)]
 struct QWork {
     phases: Vec<Vec<Resp>>,
     barriers: bool,
 }
 
+#[cfg(stageleft_runtime)]
 fn q_workload(c: QCfg, run_seed: u64) -> QWork {
     let mut r = knob_rng(run_seed);
     let nkeys = 1 + below(&mut r, 3) as u8;
@@ -157,6 +171,7 @@ fn q_workload(c: QCfg, run_seed: u64) -> QWork {
     QWork { phases, barriers: below(&mut r, 3) != 0 }
 }
 
+#[cfg(stageleft_runtime)]
 impl QFlow {
     fn run(&self, bytes: &[u8], w: &QWork) -> (Verdict, String, Vec<PhaseObs>) {
         let obs = Mutex::new(Vec::<PhaseObs>::new());
@@ -206,6 +221,7 @@ impl QFlow {
     }
 }
 
+#[cfg(stageleft_runtime)]
 fn gate(name: &str, v: &Verdict, out: &mut RunOut) -> bool {
     match v {
         Verdict::Ok => true,
@@ -225,6 +241,7 @@ fn gate(name: &str, v: &Verdict, out: &mut RunOut) -> bool {
     }
 }
 
+#[cfg(stageleft_runtime)]
 fn run_q(name: &'static str, f: &QFlow, inp: &RunIn<'_>) -> RunOut {
     let c = f.cfg;
     let w = q_workload(c, inp.run_seed);
@@ -348,6 +365,7 @@ fn run_q(name: &'static str, f: &QFlow, inp: &RunIn<'_>) -> RunOut {
 // ---------------------------------------------------------------------------------------------
 // join_responses
 
+#[cfg(stageleft_runtime)]
 struct JFlow {
     compiled: CompiledSim,
     meta_tx: Tx<(u8, u32), TotalOrder>,
@@ -356,6 +374,7 @@ struct JFlow {
     joined_rx: SimReceiver<(u8, (u32, u32)), NoOrder, ExactlyOnce>,
 }
 
+#[cfg(stageleft_runtime)]
 fn build_j() -> JFlow {
     let mut flow = FlowBuilder::new();
     let process = flow.process::<()>();
@@ -371,11 +390,13 @@ fn build_j() -> JFlow {
     JFlow { compiled, meta_tx, resp_tx, ack_rx, joined_rx }
 }
 
+#[cfg(stageleft_runtime)]
 struct JRound {
     metas: Vec<(u8, u32)>,
     resps: Vec<(u8, u32)>,
 }
 
+#[cfg(stageleft_runtime)]
 fn j_workload(run_seed: u64) -> (Vec<JRound>, bool) {
     let mut r = knob_rng(run_seed);
     let rounds = 1 + below(&mut r, 3) as usize;
@@ -418,6 +439,7 @@ fn j_workload(run_seed: u64) -> (Vec<JRound>, bool) {
     (out, below(&mut r, 2) == 0)
 }
 
+#[cfg(stageleft_runtime)]
 fn run_j(f: &JFlow, inp: &RunIn<'_>) -> RunOut {
     let name = "join_responses";
     let (rounds, barriers) = j_workload(inp.run_seed);
@@ -508,6 +530,7 @@ fn run_j(f: &JFlow, inp: &RunIn<'_>) -> RunOut {
     out
 }
 
+#[cfg(stageleft_runtime)]
 #[test]
 fn e2e_c39() {
     let Some(cfg) = cfg_for("C39") else { return };
